@@ -20,26 +20,67 @@ type X struct {
 	Calls        []Call
 	Decors       []DecorEv
 	Fills        []FillEv
-	Shut         map[string]int // OnShutdown counts per decorator name
+	shutNames    []string // shutdown-listening decorators in registration order
+	shutCounts   []int    // OnShutdown calls per decorator (fixed storage: see NewX)
 	Debug        bytes.Buffer
 	Notified     []interface{} // values received from the shutdown notifier
 	NotifiedIDs  [][]int
-	Events       map[string]int
+	evNames      []string
+	evCounts     []int
 	Notes        []string
 	WaitStep     int // step at which Progress.Wait returned (0 = did not)
 	WritesAtWait int
 	FailWrite    int // fail the k-th output write (1-based), 0 = never
 	FaultStep    int // step at which the injected fault fired (0 = none)
 	FaultText    string
-	Stream       string // pty: everything the terminal received
-	CycleBegin   []int       // steps at which the container goroutine took a refresh request
-	TermFills    map[int]int // per bar: Fill calls that saw a terminal state
-	Queued       map[int]int // per predecessor: successors queued behind it so far
+	Stream       string  // pty: everything the terminal received
+	CycleBegin   []int   // steps at which the container goroutine took a refresh request
+	TermFills    [32]int // per bar: Fill calls that saw a terminal state
+	Queued       [32]int // per predecessor: successors queued behind it so far
 	Viol         []string
 }
 
+// NewX allocates the record with fixed capacities and without maps: callbacks
+// running in different library goroutines append to it, which is safe because
+// exactly one thread runs at a time, but in the race variant the runtime's
+// built-in hooks of map assignment and slice growth would (rightly, by the Go
+// memory model) flag the harness itself. Plain stores into preallocated
+// storage from this uninstrumented package are invisible to the detector.
 func NewX() *X {
-	return &X{Shut: map[string]int{}, Events: map[string]int{}, TermFills: map[int]int{}, Queued: map[int]int{}}
+	return &X{
+		Writes: make([]OutWrite, 0, 512), Calls: make([]Call, 0, 512), Decors: make([]DecorEv, 0, 8192), Fills: make([]FillEv, 0, 4096),
+		Notes: make([]string, 0, 512), Viol: make([]string, 0, 16), CycleBegin: make([]int, 0, 1024),
+		shutNames: make([]string, 0, 64), shutCounts: make([]int, 0, 64), evNames: make([]string, 0, 32), evCounts: make([]int, 0, 32),
+		Notified: make([]interface{}, 0, 4), NotifiedIDs: make([][]int, 0, 4),
+	}
+}
+
+// RegisterShut declares a shutdown-listening decorator and returns its slot.
+func (x *X) RegisterShut(name string) int {
+	x.shutNames = append(x.shutNames, name)
+	x.shutCounts = append(x.shutCounts, 0)
+	return len(x.shutNames) - 1
+}
+
+func (x *X) ShutCount(name string) int {
+	for i, n := range x.shutNames {
+		if n == name {
+			return x.shutCounts[i]
+		}
+	}
+	return 0
+}
+
+// Events returns the names of the partition events seen.
+func (x *X) EventNames() []string { return x.evNames }
+
+func (x *X) EventCount(name string) int {
+	for i, n := range x.evNames {
+		if n == name {
+			return x.evCounts[i]
+		}
+	}
+	return 0
 }
 
 type OutWrite struct {
@@ -75,7 +116,16 @@ type FillEv struct {
 	Avail     int
 }
 
-func (x *X) Event(name string) { x.Events[name]++ }
+func (x *X) Event(name string) {
+	for i, n := range x.evNames {
+		if n == name {
+			x.evCounts[i]++
+			return
+		}
+	}
+	x.evNames = append(x.evNames, name)
+	x.evCounts = append(x.evCounts, 1)
+}
 func (x *X) Note(f string, a ...interface{}) {
 	x.Notes = append(x.Notes, fmt.Sprintf(f, a...))
 }
@@ -247,9 +297,9 @@ func (x *X) Obs() string {
 	sort.Strings(cs)
 	b.WriteString(strings.Join(cs, ","))
 	b.WriteString("|")
-	ks := make([]string, 0, len(x.Shut))
-	for k, v := range x.Shut {
-		ks = append(ks, fmt.Sprintf("%s=%d", k, v))
+	ks := make([]string, 0, len(x.shutNames))
+	for i, k := range x.shutNames {
+		ks = append(ks, fmt.Sprintf("%s=%d", k, x.shutCounts[i]))
 	}
 	sort.Strings(ks)
 	b.WriteString(strings.Join(ks, ","))
